@@ -956,11 +956,12 @@ func (m *Manager) recoverFromWAL() error {
 
 	// Add recovered memtables to the pool
 	for i, memTable := range memTables {
-		if i == len(memTables)-1 {
-			// The last memtable becomes the active one
-			m.memTablePool.SetActiveMemTable(memTable)
-		} else {
-			// Previous memtables become immutable
+		// Every recovered memtable goes through the pool, oldest first: the pool
+		// keeps the previous one as an immutable table when the next one becomes
+		// active, so reads see all of them and not only the last one
+		m.memTablePool.SetActiveMemTable(memTable)
+		if i < len(memTables)-1 {
+			// Previous memtables become immutable and are queued for flushing
 			memTable.SetImmutable()
 			m.immutableMTs = append(m.immutableMTs, memTable)
 		}
